@@ -157,13 +157,63 @@ def _random_sentences(rng, count):
     return out
 
 
+def _paren_variants(rng, count):
+    """Groups of spellings of one sentence that differ only by redundant parentheses (and blanks), inside call arguments and at the top
+    level: the plain chain, its fully parenthesised form under the documented precedence (precedence climbing of C02.parenthesise,
+    independent of the parser), every atom wrapped, the whole argument wrapped twice."""
+    from .C02 import parenthesise
+    out = []
+    for _ in range(count):
+        inside = rng.random() < 0.7
+        atoms = ["x", "z", "w", "2", "1.5", "g(x)"] if inside else ["a", "b", "c", "f(x)", "d"]
+        ops = ["+", "-", "*", "/", "**"] if inside else ["+", "-", "*", "/", ":"]
+        chain = [rng.choice(atoms)]
+        for _i in range(rng.randint(1, 4)):
+            op = rng.choice(ops)
+            chain += [op, "2" if op == "**" and not inside else rng.choice(atoms)]
+        plain, full = " ".join(chain), parenthesise(chain)
+        wrapped = " ".join(f"({t})" if i % 2 == 0 else t for i, t in enumerate(chain))
+        spellings = [plain, full, wrapped, f"(({plain}))", plain.replace(" ", ""), full.replace(" ", "  ")]
+        if inside:
+            fn = rng.choice(["I(%s)", "f(%s)", "np.log(%s)", "{%s}", "f(x, k=%s)", "f(%s, 2)", "(I(%s))"])
+            spellings = [fn % v for v in spellings]
+        out.append(spellings)
+    return out
+
+
+def _same_model(spellings):
+    """None, or what differs between the models of spellings that are one sentence up to redundant parentheses"""
+    from formulae import model_description
+    try:
+        ref = model_description("y ~ " + spellings[0])
+    except Exception:
+        return None, False           # the sentence is refused (e.g. a number in an interaction): nothing to compare
+    for v in spellings[1:]:
+        try:
+            m = model_description("y ~ " + v)
+        except Exception as ex:
+            return f"{spellings[0]!r} is accepted but {v!r} raises {type(ex).__name__}: {ex}", True
+        if len(m.terms) != len(ref.terms) or any(not (a == b and hash(a) == hash(b)) for a, b in zip(ref.terms, m.terms)):
+            return f"{v!r} and {spellings[0]!r} give different terms: {m.terms} / {ref.terms}", True
+        try:
+            both = model_description(f"y ~ {spellings[0]} + {v}")
+        except Exception:
+            continue
+        if len(both.terms) != len(ref.terms):
+            return f"{spellings[0]!r} + {v!r} has {len(both.terms)} terms, {spellings[0]!r} alone {len(ref.terms)} (one sentence, two terms)", True
+    return None, True
+
+
 def run(report, findings):
-    from ..contracts import parser_c, scanner_c
+    from ..contracts import parser_c, scanner_c, resolver_c, algebra_c   # noqa: F401
     tier = report.tier
     # ---- proof tier: every scanner and parser function against the grammar contract
     checklib.run_proofs(report, "C01", [("vf.contracts.scanner_c", scanner_c.FUNCTIONS), ("vf.contracts.parser_c", parser_c.FUNCTIONS),
                                         # property lemma: the scanner's guarantee is the parser's precondition (the two contracts compose)
-                                        ("vf.contracts.lemmas_c", ["vf.proplemmas.c01.scan_then_parse"])])
+                                        ("vf.contracts.lemmas_c", ["vf.proplemmas.c01.scan_then_parse"]),
+                                        # redundant parentheses: both tree walkers return for a Grouping what they return for its content
+                                        ("vf.contracts.resolver_c", ["formulae.terms.call_resolver.CallResolver.visitGroupingExpr"]),
+                                        ("vf.contracts.algebra_c", ["formulae.resolver.Resolver.visitGroupingExpr"])])
     # ---- bounded tier: exhaustive strings over the token alphabet
     n_max = 4 if tier == "quick" else 5
     tasks = []
@@ -197,7 +247,21 @@ def run(report, findings):
         n_sent_acc += ok
         if ok and err:
             report.violation(f"formula {s!r}: {err}", {"formula": s, "error": err})
+    n_groups = n_groups_judged = 0
+    shown = 0
+    for sp in _paren_variants(rng, 1500 if tier == "quick" else 15000):
+        err, judged = _same_model(sp)
+        n_groups += 1
+        n_groups_judged += judged
+        evals += len(sp)
+        if err and shown < 5:
+            shown += 1
+            report.violation(f"redundant parentheses change the model: {err}", {"spellings": sp, "error": err})
     report.coverage.update({
+        "paren_groups": {"groups": n_groups, "judged": n_groups_judged,
+                         "rule": "6 spellings of one chain (plain, fully parenthesised by own precedence climbing, atoms wrapped, doubly wrapped, "
+                                 "dense, padded), inside call arguments and at the top level: equal terms (== and hash), union of two "
+                                 "spellings has no extra term"},
         "checker_cmd": "./check C01",
         "trusted_base": checklib.PY_ASSUMPTIONS + [
             "spec-level lemma (not mechanised): a tree that is stratified and covers a token sequence is the unique "
